@@ -33,6 +33,9 @@ type cfg struct {
 	// NoMerge > 0: enumerate every history up to this depth without merging
 	// states (hidden state that no key shows, e.g. a stale cached function).
 	NoMerge int `json:"unmerged_depth,omitempty"`
+	// Coarse: elements are (priority, name) pairs encoded as 10*priority+name and
+	// compared by priority alone, so that different elements compare equal.
+	Coarse bool `json:"coarse_comparison,omitempty"`
 }
 
 type counters struct {
@@ -48,13 +51,42 @@ type inst struct {
 	emptied, used bool
 }
 
-func asc(a, b int) int { return a - b }
-func dsc(a, b int) int { return b - a }
+// The two orders are method values of ONE method bound to different receivers:
+// different function values that share a code pointer (an implementation that
+// compares function identity by code pointer must not take them for the same).
+type order struct{ desc bool }
+
+func (o order) compare(a, b int) int {
+	if o.desc {
+		return b - a
+	}
+	return a - b
+}
+
+var (
+	asc = order{false}.compare
+	dsc = order{true}.compare
+)
+
 func (s *inst) cmp() func(a, b int) int {
+	if s.c != nil && s.c.Coarse {
+		return order{s.desc}.comparePriority
+	}
 	if s.desc {
 		return dsc
 	}
 	return asc
+}
+
+func (o order) comparePriority(a, b int) int { return o.compare(a/10, b/10) }
+
+// val maps a value index to the element used: the index itself, or with a
+// coarse comparison the pair (index/2, index%2).
+func (s *inst) val(v int) int {
+	if s.c.Coarse {
+		return v/2*10 + v%2
+	}
+	return v
 }
 
 func allSeqs(vals, maxLen int) [][]int {
@@ -78,7 +110,7 @@ func (s *inst) Enabled() []op {
 	var ops []op
 	if len(s.ref) < s.c.N {
 		for v := 0; v < s.c.V; v++ {
-			ops = append(ops, op{K: "add", A: v})
+			ops = append(ops, op{K: "add", A: s.val(v)})
 		}
 	}
 	ops = append(ops, op{K: "pop"})
@@ -86,6 +118,12 @@ func (s *inst) Enabled() []op {
 		ops = append(ops, op{K: "remove", A: i})
 	}
 	for _, vs := range allSeqs(s.c.SetV, s.c.SetLen) {
+		if s.c.Coarse {
+			vs = append([]int(nil), vs...)
+			for i := range vs {
+				vs[i] = s.val(vs[i])
+			}
+		}
 		ops = append(ops, op{K: "set", Vs: vs})
 	}
 	ops = append(ops, op{K: "reorder"}, op{K: "clear"})
@@ -531,6 +569,11 @@ func main() {
 				deep := &cfg{V: 3, N: mc.Pick(r, 10, 12), SetV: 1, SetLen: 0}
 				deep.Roots, deep.RootCap = [][]int{nil}, []int{0}
 				res2 := makeBFS(deep, &cnt).Run(r)
+				// elements that compare equal without being equal: (priority, name) pairs
+				coarse := &cfg{V: 4, N: 5, SetV: 4, SetLen: 2, Coarse: true}
+				coarse.Roots, coarse.RootCap = [][]int{nil}, []int{0}
+				res4 := makeBFS(coarse, &cnt).Run(r)
+				r.Bound("coarse_comparison_configuration", fmt.Sprintf("elements (p,n) for p,n in {0,1} compared by p alone, up to 5 elements: %d states; conservation is judged on the pairs, minimality on the priority", res4.States))
 				// every history to a small depth, no merging at all
 				flat := &cfg{V: 2, N: 3, SetV: 2, SetLen: 1, NoMerge: mc.Pick(r, 5, 6)}
 				flat.Roots, flat.RootCap = [][]int{nil, {1, 0}}, []int{0, 1}
